@@ -43,7 +43,7 @@ def main():
                 pid, 'check not built yet in this round; runtime monitoring applies (see DESIGN.md section 4)')))
     manifest = dict(
         version=1,
-        setup_cmd='python3 -m vp.build asan',
+        setup_cmd='python3 -m vp.build asan plain asanexe fuzz',
         hooks=dict(guard='CIF_API_VERIF',
                    enable='none needed: the checks compile the working tree\'s src/*.c themselves (vp/build.py) and '
                           'observe through the public API, internal headers and link-time --wrap interposition',
